@@ -140,7 +140,8 @@ class _Subst(ast.NodeTransformer):
 def rule_P2(ctx):
     fn = ctx.fn(ST, "Image.combine_stereo_routine", "P2")
     rg = ctx.prog.class_assigned(ST, "Image", "_STEREO_FILENAME", "P2")
-    pat = rg.args[0].value
+    from .util import regex_value
+    pat, _fl = regex_value(ctx, rg, ctx.prog.module(ST), "P2", f"{ST}:Image._STEREO_FILENAME")
     import re._constants as sc
     t = rx.parse(pat)
     gs = rx.groups(t)
